@@ -229,7 +229,9 @@ def h_grid(version, nm, na, nf, nmax, same_ends=False, too_small=False, interp_m
                 else:
                     delta = L1 - L0
                     g = [z3.BoolVal(n >= 2), C.bterm(v['step'] * (n - 1) >= delta), C.bterm(v['step'] * (n - 2) < delta)]
-                    cl.claim(c, conj(g), 'G1 fewest points whose spacing does not exceed logd_step (n=%d)' % n, inputs, replay_grid)
+                    # counterexamples are easier to replay in floating point with dmin = 1 kpc and a dyadic step
+                    nice = [C.same(v['dmin'], 1.0), C.same(L0, 0.0), C.same(v['step'], 0.5), C.same(L1, 1.0), C.same(v['dmax'], 10.0)]
+                    cl.claim(c, conj(g), 'G1 fewest points whose spacing does not exceed logd_step (n=%d)' % n, inputs, replay_grid, prefer=nice)
                     g = [C.same(d[0], v['dmin']), C.same(d[n - 1], v['dmax'])]
                     g += [C.same(logd[i], L0 + delta * i / (n - 1)) for i in range(n)]
                     cl.claim(c, conj(g), 'G2 log-uniform grid including both ends (n=%d)' % n, inputs, replay_grid)
